@@ -3,6 +3,7 @@ mod detect;
 mod enc_replay;
 mod errtext;
 mod input_replay;
+mod libtable;
 mod mem;
 mod msgpack_replay;
 mod obs;
@@ -34,6 +35,7 @@ fn main() {
         "gen-deep" => depth::write_file(&arg(2), &arg(3), &arg(4), num(5, 10) as usize),
         "total-gen" => total::gen(&arg(2), &arg(3), num(4, 200)),
         "total-worker" => total::worker(),
+        "lib-table" => libtable::run(&arg(2)),
         "record-detect" => detect::record(&arg(2), num(3, 50)),
         "record-mem" => {
             let sizes: Vec<usize> = arg(4).split(',').filter_map(|s| s.parse().ok()).collect();
